@@ -400,4 +400,82 @@ theorem file_registers_iff (e : Env) (r : Registry) (contents : List Content) :
     obtain ⟨x, hx, hxk⟩ := List.mem_map.mp this
     rw [← hxk]; exact h x hx
 
+/-! ### reading a reference before later files are registered
+
+An imported file is finished — its references bound — before the importing file registers anything. The registry it
+is read against is a prefix `r` of the final one `r ++ extra`. -/
+
+theorem get_append (r extra : Registry) (k : String) :
+    (r ++ extra).get k = (r.get k).or (extra.get k) := by
+  unfold Registry.get
+  rw [List.find?_append]
+
+theorem get_mem (r : Registry) (k : String) (d : Def) (h : r.get k = some d) : d ∈ r ∧ d.key = k := by
+  unfold Registry.get at h
+  refine ⟨List.mem_of_find?_eq_some h, ?_⟩
+  have := List.find?_some h
+  simpa using this
+
+/-- a definition of the earlier part is never also found in the later part (names are unique) -/
+theorem not_in_both (r extra : Registry) (hn : ((r ++ extra).map (·.key)).Nodup) (d d' : Def)
+    (hd : d ∈ r) (hd' : d' ∈ extra) : d.key ≠ d'.key := by
+  intro hk
+  rw [List.map_append, List.nodup_append] at hn
+  exact hn.2.2 d.key (List.mem_map.mpr ⟨d, hd, rfl⟩) d'.key (List.mem_map.mpr ⟨d', hd', rfl⟩) hk
+
+theorem get_stable (r extra : Registry) (hn : ((r ++ extra).map (·.key)).Nodup) (k : String) (d : Def)
+    (h : (r ++ extra).get k = some d) (hin : d ∈ r) : r.get k = some d := by
+  rw [get_append] at h
+  cases hr : r.get k with
+  | some y => rw [hr] at h; simpa using h
+  | none =>
+    rw [hr] at h
+    simp only [Option.none_or] at h
+    obtain ⟨hmem, _⟩ := get_mem extra k d h
+    exact absurd rfl (not_in_both r extra hn d d hin hmem)
+
+theorem get_none_of_append_none (r extra : Registry) (k : String) (h : (r ++ extra).get k = none) : r.get k = none := by
+  rw [get_append] at h
+  cases hr : r.get k with
+  | none => rfl
+  | some y => rw [hr] at h; simp at h
+
+/-- **Stability of lexical scoping under later registrations**: if, in the final registry `r ++ extra`, a reference
+    denotes a definition that is already present in `r` (a built-in, an external type, a declaration of the same
+    file or of a file finished earlier), then reading the reference against `r` alone — as the nested parser of an
+    imported file does — gives the same definition. (When the final denotation lies in `extra`, i.e. in the importing
+    file, the two readings differ: the imported file is a unit of its own; see the example below.) -/
+theorem lexicalLookup_stable (r extra : Registry) (hn : ((r ++ extra).map (·.key)).Nodup)
+    (ns : List String) (name : String) (d : Def)
+    (h : lexicalLookup (r ++ extra) ns name = some d) (hin : d ∈ r) :
+    lexicalLookup r ns name = some d := by
+  unfold lexicalLookup at *
+  split at h
+  · next hdot => rw [if_pos hdot]; exact get_stable r extra hn _ d h hin
+  · next hdot =>
+    rw [if_neg hdot]
+    generalize prefixesLongestFirst ns.reverse = ps at h
+    induction ps with
+    | nil => simp at h
+    | cons p ps ih =>
+      rw [List.findSome?_cons] at h ⊢
+      cases hp : (r ++ extra).get (regKey p name) with
+      | some x =>
+        rw [hp] at h
+        have hx : x = d := by simpa using h
+        subst hx
+        rw [get_stable r extra hn _ x hp hin]
+      | none =>
+        rw [hp] at h
+        rw [get_none_of_append_none r extra _ hp]
+        exact ih h
+
+/-- a later registration can capture a relative reference: read early it denotes the outer `t`, read against the final
+    registry the inner `a.t` -/
+example :
+    lexicalLookup [{ key := "t", prim := .enum, arity := 0 }] ["a"] "t" = some { key := "t", prim := .enum, arity := 0 }
+    ∧ lexicalLookup ([{ key := "t", prim := .enum, arity := 0 }] ++ [{ key := "a.t", prim := .error, arity := 0 }]) ["a"] "t"
+        = some { key := "a.t", prim := .error, arity := 0 } := by
+  constructor <;> decide +kernel
+
 end Pydjinni.Front
